@@ -5,14 +5,15 @@ LEVEL = "proof"
 MODULES = ["contracts.comm", "contracts.ssm", "contracts.ssm_sap", "contracts.dispatch", "contracts.netservice"]
 _N = "bacpypes.netservice:"
 FUNCTIONS = ([P + "ApplicationServiceAccessPoint.indication[confirmed, %s]" % k for k in ("known service, decoding ok", "known service, decoding reject",
-                                                                                       "known service, decoding abort", "unknown service, decoding ok")]
+                                                                                       "known service, decoding abort", "known service, decoding crash",
+                                                                                       "unknown service, decoding ok")]
              + ["bacpypes.app:Application.indication[%s]" % k for k in ("confirmed, handler present", "confirmed, no handler", "unconfirmed")]
              + SERVER_START + SAP_DEMUX + SERVER_TASK
              + [_N + "NetworkServiceAccessPoint.process_npdu[router, from network %d]" % n for n in (1, 2, 3)]
              + [_N + "NetworkServiceAccessPoint.process_npdu[station, from network 1]"])
 LEMMAS = []
 MIN_OBLIGATIONS = 60
-BOUNDED = None
+BOUNDED = "bounded.c10"
 ASSUMPTIONS = [
     "in the dispatch units the service's decoder and the application's handler are ghosts whose outcome is a symbolic choice (succeed / RejectException / AbortException / ExecutionError / another exception); that the real decoders of the 58 services raise nothing but RejectException / AbortException on malformed parameters is what the bounded stage sweeps",
     "the transaction side (no leftover transaction or timer) is the class invariant of the segmentation state machines, see C04; the return path of a routed request is C06's learned-path clause",
